@@ -78,3 +78,23 @@ func verifRoundTripJsByte(v JsByte) (JsByte, error) {
 	var err = o.UnmarshalJSON(b)
 	return *o, err
 }
+
+func verifRoundTripBase64(v Base64Bytes) (Base64Bytes, error) {
+	var x, _ = v.Value()
+	var o = new(Base64Bytes)
+	var err = o.Scan(x)
+	return *o, err
+}
+
+func verifRoundTripUnixStamp2(v UnixStamp, w SQLTime2Unix) (UnixStamp, SQLTime2Unix, error) {
+	var x, _ = v.Value()
+	var o = new(UnixStamp)
+	var err = o.Scan(x)
+	var y, _ = w.Value()
+	var p = new(SQLTime2Unix)
+	var err2 = p.Scan(y)
+	if err == nil {
+		err = err2
+	}
+	return *o, *p, err
+}
